@@ -37,6 +37,8 @@ func readLocalSymbolTable(r Reader, cat Catalog) (SymbolTable, error) {
 			}
 			foundImport = true
 			imps, err = readImports(r, cat)
+		default:
+			err = drainValue(r)
 		}
 		if err != nil {
 			return nil, err
@@ -72,7 +74,7 @@ func readImports(r Reader, cat Catalog) ([]SharedSymbolTable, error) {
 	}
 
 	if r.Type() != ListType || r.IsNull() {
-		return nil, nil
+		return nil, drainValue(r)
 	}
 	if err := r.StepIn(); err != nil {
 		return nil, err
@@ -96,7 +98,7 @@ func readImports(r Reader, cat Catalog) ([]SharedSymbolTable, error) {
 // ReadImport reads an import definition.
 func readImport(r Reader, cat Catalog) (SharedSymbolTable, error) {
 	if r.Type() != StructType || r.IsNull() {
-		return nil, nil
+		return nil, drainValue(r)
 	}
 	if err := r.StepIn(); err != nil {
 		return nil, err
@@ -148,6 +150,10 @@ func readImport(r Reader, cat Catalog) (SharedSymbolTable, error) {
 				maxID = *i
 			}
 		}
+		// Whatever was not one of the scalars above may be a container.
+		if err := drainValue(r); err != nil {
+			return nil, err
+		}
 	}
 
 	if err := r.StepOut(); err != nil {
@@ -192,8 +198,8 @@ func readImport(r Reader, cat Catalog) (SharedSymbolTable, error) {
 
 // ReadSymbols reads the symbols from a symbol table.
 func readSymbols(r Reader) ([]string, error) {
-	if r.Type() != ListType {
-		return nil, nil
+	if r.Type() != ListType || r.IsNull() {
+		return nil, drainValue(r)
 	}
 	if err := r.StepIn(); err != nil {
 		return nil, err
@@ -214,9 +220,42 @@ func readSymbols(r Reader) ([]string, error) {
 			}
 		} else {
 			syms = append(syms, "")
+			if err := drainValue(r); err != nil {
+				return nil, err
+			}
 		}
 	}
 
 	err := r.StepOut()
 	return syms, err
+}
+
+// DrainValue traverses the current value, descending into containers. The reader
+// skips what it does not step into without checking its syntax, so content of a
+// symbol table that is otherwise ignored is walked to make malformed data surface.
+func drainValue(r Reader) error {
+	depth := 0
+	for {
+		switch r.Type() {
+		case ListType, SexpType, StructType:
+			if !r.IsNull() {
+				if err := r.StepIn(); err != nil {
+					return err
+				}
+				depth++
+			}
+		}
+		for depth > 0 && !r.Next() {
+			if err := r.Err(); err != nil {
+				return err
+			}
+			if err := r.StepOut(); err != nil {
+				return err
+			}
+			depth--
+		}
+		if depth == 0 {
+			return nil
+		}
+	}
 }
